@@ -49,6 +49,7 @@ package main
 // checked against the two legal tails by the monitor and printed as ~.
 
 import (
+	"net"
 	"context"
 	"errors"
 	"flag"
@@ -96,6 +97,8 @@ type rcInj struct {
 	failClose bool // f prefix: the transport's Impl.Close returns an error (it still closes the stream)
 	double bool   // 2 prefix: once the injected Close is inside the wrapped client's Close, Close is called again
 	cancel bool   // x prefix
+	hang   bool   // h prefix (conn only): the connect of that attempt is the real gnmi transport's dial
+	              // (client/gnmi.New) to a listener that accepts TCP and never answers
 	kind   string // pre conn msg disc rst bo end
 	a, i   int
 	beh    byte // 'e' or 'b'
@@ -188,6 +191,10 @@ func rcParse(args []string) (*rcScenario, bool) {
 	}
 	if strings.HasPrefix(in, "x") {
 		s.inj.cancel = true
+		in = in[1:]
+	}
+	if strings.HasPrefix(in, "hconn:") {
+		s.inj.hang = true
 		in = in[1:]
 	}
 	f := strings.Split(in, ":")
@@ -500,6 +507,38 @@ func (w *rcWorld) initImpl(ctx context.Context, _ client.Destination) (client.Im
 	w.attempts++
 	w.mu.Unlock()
 	in := w.sc.inj
+	if in.kind == "conn" && in.a == a && in.hang {
+		// The real transport: a blocking gRPC dial to an address that accepts the TCP connection and
+		// then says nothing.  The injection point is reached once the listener has accepted; Close or the
+		// caller's cancellation must end the dial (it is bounded by the Subscribe context, not only by the
+		// destination's timeout, which is far beyond the scenario's deadline).
+		ln, err := net.Listen("tcp", "127.0.0.1:0")
+		if err != nil {
+			return nil, errRcConnect
+		}
+		go func() {
+			var held []net.Conn
+			defer func() {
+				for _, c := range held {
+					c.Close()
+				}
+			}()
+			for {
+				c, err := ln.Accept()
+				if err != nil {
+					return
+				}
+				held = append(held, c)
+				w.reached()
+			}
+		}()
+		impl, err := gclient.New(ctx, client.Destination{Addrs: []string{ln.Addr().String()}, Timeout: 30 * time.Second})
+		ln.Close()
+		if err == nil {
+			impl.Close()
+		}
+		return nil, errRcClosed
+	}
 	if in.kind == "conn" && in.a == a {
 		w.reached()
 		select {
@@ -1157,6 +1196,9 @@ func (c *rcComp) Gen(r *rand.Rand, tier string) []string {
 				inj = x + "pre"
 			case k < 5:
 				inj = fmt.Sprintf("%sconn:%d", x, a)
+				if r.Intn(3) == 0 {
+					inj = fmt.Sprintf("%shconn:%d", x, a) // the real transport's dial, to a peer that never answers
+				}
 			case k < 12:
 				inj = fmt.Sprintf("%smsg:%d:%d:%s", x, a, r.Intn(4), beh)
 				if x == "" && r.Intn(4) == 0 {
